@@ -109,6 +109,23 @@ def extra_items():
              "    #[diplomat::demo(custom_func = \"custom.mjs\")]\n    #[diplomat::opaque]\n    pub struct Dd%d(u8);\n    impl Dd%d {\n"
              "        pub fn show(&self, c: Dc%d, w: &mut DiplomatWrite) {}\n        pub fn fallible(&self, w: &mut DiplomatWrite) -> Result<(), En> { Ok(()) }\n    }\n" % (i, i, i, i),
              "Dd%d::show" % i, "demo attrs: labelled struct field, custom_func type, write-out returning Result<(), En>")
+    # --- documentation links: every rust_link kind, with the shortest path its kind allows, a longer one, and one or two segments too few
+    # (a link is part of the accepted module: whatever lowering lets through, the docs-rendering backends have to survive)
+    kinds = {"Mod": 0, "Struct": 1, "Enum": 1, "Trait": 1, "Fn": 1, "Macro": 1, "Constant": 1, "Typedef": 1, "EnumVariantField": 3}
+    for kk in ["StructField", "EnumVariant", "FnInStruct", "FnInTypedef", "FnInEnum", "FnInTrait", "DefaultFnInTrait",
+               "AssociatedConstantInEnum", "AssociatedConstantInTrait", "AssociatedConstantInStruct", "AssociatedTypeInEnum",
+               "AssociatedTypeInTrait", "AssociatedTypeInStruct"]:
+        kinds[kk] = 2
+    segs = ["lnk", "alpha", "beta", "gamma", "delta", "eps"]
+    for kind, need in sorted(kinds.items()):
+        for nseg, disp in ((1 + need, ""), (3 + need, ", compact"), (need, ""), (need - 1, "")):
+            if nseg < 1:
+                continue
+            i = k[0]
+            add_item("    #[diplomat::opaque]\n    #[diplomat::rust_link(%s, %s%s)]\n    pub struct Lk%d(u8);\n    impl Lk%d {\n"
+                     "        #[diplomat::rust_link(%s, %s%s)]\n        pub fn m(&self) -> u8 { 0 }\n    }\n"
+                     % ("::".join(segs[:nseg]), kind, disp, i, i, "::".join(segs[:nseg]), kind, disp),
+                     "Lk%d" % i, "rust_link %s with %d path segments%s" % (kind, nseg, " (%d too few)" % (1 + need - nseg) if nseg <= need else ""))
     for p in ["char", "&[i64]", "Option<char>", "&[bool]", "&[char]", "Box<[u8]>", "Box<str>", "Box<DiplomatStr16>",
               "&[DiplomatStrSlice]", "&[DiplomatStr16Slice]", "&[DiplomatUtf8StrSlice]", "Option<&[DiplomatStrSlice]>",
               "Option<Box<[u8]>>", "Option<Box<str>>"]:
